@@ -488,9 +488,15 @@ def _packet_seg(rng):
     r = rng.random()
     pool = _pool()
     p = rng.choice(pool)[0]
-    if r < 0.50:
+    if r < 0.48:
         return ("P", p)
-    if r < 0.55:
+    if r < 0.53:
+        # a valid packet whose last byte (the checksum) is 0xAA: half a start marker at the very end of a packet
+        q = bytearray(p)
+        q[18] = (q[18] + (0xAA - sum(q[2:19])) % 256) % 256
+        q[19] = sum(q[2:19]) & 0xFF
+        return ("V", bytes(q))
+    if r < 0.56:
         # valid header and checksum, content the decoder raises on (a value out of its range): cut out like any packet
         import vloop as _VL
         return ("V", _VL.bad_frame("waveshare", rng.randrange(8)))
